@@ -1077,6 +1077,11 @@ class DiskRefsContainer(RefsContainer):
                     if ref == HEADREF:
                         raise ValueError("cannot pack HEAD")
 
+                    if prune_only_unchanged and self.read_loose_ref(ref) != target:
+                        # pack_refs: the ref was updated or deleted since its
+                        # value was read; leave it to the next pack
+                        continue
+
                     if target is not None:
                         packed_refs[ref] = target
                     else:
